@@ -83,7 +83,8 @@ READERS = {
 # --------------------------------------------------------------------------- snapshots / clone
 _J_LISTED = ('bib', 'attempts_by_height', 'highest_cleared', '_place', 'eliminated', 'dismissed', 'round_lim', 'consecutive_failures',
              'highest_cleared_index')
-_C_LISTED = ('state', 'heights', 'bar_height', 'jumpers', 'ranked_jumpers', 'jumpers_by_bib', 'actions', '_vf_shadow')
+# ('verbose' is a printing switch, not state: from_matrix sets it to False, the constructor to 0)
+_C_LISTED = ('state', 'heights', 'bar_height', 'jumpers', 'ranked_jumpers', 'jumpers_by_bib', 'actions', '_vf_shadow', 'verbose')
 
 
 def _others(obj, listed):
